@@ -216,6 +216,9 @@ CLAIMED.update({
              "ac_no_final_newline (same result, message included, with or without the final LF); ini_roundtrip incl. "
              "literal `$` (DollarOk) and references nested one level (for every separator that is neither white space nor NUL: "
              "hypotheses hsep, hs0 - with sepchar NUL the code builds EMPTY section prefixes, which the model reproduces); "
+             "ac_reused_object_same_reading / ac_errmsg_names_this_call / ac_no_stale_errmsg (a qaconf object that has parsed before - "
+             "any history of parses and reseterror calls - reads the next document exactly like a fresh one; object model Conf/AconfObj.lean, "
+             "exercised call by call through the `acre` operation); "
              "ini_include_directive (the directive the model recognises is the source's _INCLUDE_DIRECTIVE, regenerated on "
              "every run: 9 bytes ending in a blank), include_free_is_parseStr (a file with no line beginning with the "
              "directive parses exactly as its text does, whatever look-alike lines it has) and include_splice (the first "
